@@ -5,7 +5,8 @@
    standard-object.go (setSlot, SlotValue, SetSlotValue, Hierarchy), slotdef.go (reader / writer / accessor
    methods), slot-value.go, slot-boundp.go, slot-makunbound.go, class-precedence.go, class-of.go,
    pkg/cl/typep.go and, for the methods the accessors are, pkg/generic/uax.go (Aux.Call with its dispatch cache
-   keyed by the class NAME of the argument, AddMethod clearing the cache of that generic only).
+   keyed by the class NAME of the argument, AddMethod clearing the cache of that generic only, ClearCaches
+   clearing all of them at the end of classChanged).
 
    Class objects live in a heap (index = allocation order = "pointer"); the registry maps a class name to
    the object currently registered under it.  A redefinition allocates a new object; objects of earlier
@@ -14,7 +15,8 @@
    standard-object and t are SO and TT.
 
    Go iterates maps in an arbitrary order in two places: the list of not-ready classes in makeClassesReady
-   and the loop over all classes in classChanged.  Both orders are INPUTS of the step (rorder, corder):
+   and the loop over all classes in classChanged (which sorts what it collects, stably, by the length of the
+   inherit list: ties keep the map order).  Both orders are INPUTS of the step (rorder, corder):
    the theorems quantify over them, the correspondence run searches for one that explains the observation. *)
 From Coq Require Export List Bool Arith ZArith Lia.
 Export ListNotations.
@@ -35,6 +37,13 @@ Fixpoint set_assoc {A} (l : list (nat * A)) (k : nat) (v : A) : list (nat * A) :
   | (k', v') :: r => if Nat.eqb k k' then (k, v) :: r else (k', v') :: set_assoc r k v
   end.
 Definition memb (x : nat) (l : list nat) : bool := existsb (Nat.eqb x) l.
+(* keep the first occurrence *)
+Fixpoint kf (seen l : list nat) : list nat :=
+  match l with
+  | [] => []
+  | x :: r => if memb x seen then kf seen r else x :: kf (x :: seen) r
+  end.
+Definition dedup (l : list nat) : list nat := kf [] l.
 Fixpoint set_nth {A} (l : list A) (i : nat) (x : A) : list A :=
   match l, i with
   | [], _ => []
@@ -57,7 +66,7 @@ Record cobj := mkCO {
   co_name : nat; co_supers : list nat; co_slots : list slotdef;
   co_inherit : list (nat * nat);
   co_prec : list nat;
-  co_initargs : list (nat * nat);        (* initarg -> slot name, most specific first *)
+  co_initargs : list (nat * nat);        (* (initarg, slot name) for every declaration, most specific first *)
   co_initforms : list (nat * Z) }.       (* slot name -> initform value, most specific first *)
 
 (* generic function: which class names have a method, and the dispatch cache: class name of the
@@ -121,16 +130,18 @@ Definition slot_initforms (sl : list slotdef) : list (nat * Z) :=
 Definition slots_of (hp : list cobj) (p : nat * nat) : list slotdef :=
   match nth_error hp (fst p) with Some sc => co_slots sc | None => [] end.
 (* slot definitions of the class and of everything on its inherit list, most specific first.  The Go
-   code fills the maps from the least specific class to the class itself, later writes winning;
-   looking up the first match in this order gives the same answer. *)
+   code fills the maps from the least specific class to the class itself: for initForms later writes win
+   (looking up the first match in this order gives the same answer); initArgs collects, per initarg, the
+   slots that declare it (initarg_slots below). *)
 Definition all_slots (hp : list cobj) (own : list slotdef) (inh : list (nat * nat)) : list (list slotdef) :=
   own :: map (slots_of hp) inh.
 Definition mk_initargs hp own inh : list (nat * nat) := flat_map slot_initargs (all_slots hp own inh).
 Definition mk_initforms hp own inh : list (nat * Z) := flat_map slot_initforms (all_slots hp own inh).
 Definition mk_prec (n : nat) (inh : list (nat * nat)) : list nat := n :: map snd inh ++ [SO; TT].
 
-(* mergeSupers on the object at heap index id.  On failure only the inherit list is emptied
-   (c.inherit = c.inherit[:0]; return false): precedence, initArgs, initForms keep their old contents. *)
+(* mergeSupers on the object at heap index id.  On failure the inherit list and the precedence list are
+   emptied (repo_fixes/C12-3: c.inherit = c.inherit[:0]; c.precedence = nil; return false): the class is not
+   ready; initArgs, initForms keep their old contents (nothing reads them while the class is not ready). *)
 Definition merge (w : world) (id : nat) : world * bool :=
   match get w id with
   | None => (w, false)
@@ -138,7 +149,7 @@ Definition merge (w : world) (id : nat) : world * bool :=
       match phase1 (reg w) (heap w) (co_supers c) [] with
       | None =>
           (with_heap w (set_nth (heap w) id
-             (mkCO (co_name c) (co_supers c) (co_slots c) [] (co_prec c) (co_initargs c) (co_initforms c))), false)
+             (mkCO (co_name c) (co_supers c) (co_slots c) [] [] (co_initargs c) (co_initforms c))), false)
       | Some directs =>
           let inh := phase2 (heap w) directs directs in
           (with_heap w (set_nth (heap w) id
@@ -172,9 +183,20 @@ Definition make_ready (w : world) (rorder : list nat) : world :=
   let l := filter (fun id => negb (readyb w id)) rorder in
   ready_loop (S (length l)) w l.
 
-(* classChanged(cc): every class (in map order) that inherits a class named like cc is merged again, once *)
+(* classChanged(cc) (repo_fixes/C12-2): the classes that inherit a class named like cc are collected in map
+   order, sorted (stable) by the length of their inherit list, then merged again, once each *)
+Definition inh_len (w : world) (id : nat) : nat :=
+  match get w id with Some c => length (co_inherit c) | None => 0 end.
+Fixpoint insert_by (f : nat -> nat) (x : nat) (l : list nat) : list nat :=
+  match l with
+  | [] => [x]
+  | y :: r => if Nat.leb (f x) (f y) then x :: l else y :: insert_by f x r
+  end.
+Definition sort_by (f : nat -> nat) (l : list nat) : list nat := fold_right (insert_by f) [] l.
+Definition stale_order (w : world) (n : nat) (corder : list nat) : list nat :=
+  sort_by (inh_len w) (filter (fun id => inherits w id n) corder).
 Definition class_changed (w : world) (n : nat) (corder : list nat) : world :=
-  fold_left (fun w id => if inherits w id n then fst (merge w id) else w) corder w.
+  fold_left (fun w id => fst (merge w id)) (stale_order w n corder) w.
 
 (* ---- generics ---------------------------------------------------------------------------- *)
 Definition get_gf (w : world) (k : nat) : gf := match lookup (gfs w) k with Some g => g | None => gf0 end.
@@ -190,9 +212,13 @@ Definition slot_methods (w : world) (n : nat) (sd : slotdef) : world :=
   if sd_accessor sd then add_method (add_method w2 (gkey KAR s) n) (gkey KAW s) n else w2.
 
 (* Aux.Call up to the choice of the effective method: the cache is keyed by Hierarchy()[0], the class
-   NAME; a miss walks the argument's precedence list and keeps the names that have a method; an empty
+   NAME; a miss walks the argument's hierarchy (its precedence list) and keeps the names that have a method; an empty
    result is not cached (no-applicable-method).  None: no applicable method / the instance does not exist. *)
 Definition applicable (g : gf) (prec : list nat) : list nat := filter (fun h => memb h (g_methods g)) prec.
+(* StandardObject.Hierarchy (repo_fixes/C12-3): the precedence list of the class of the instance; (t) while
+   that class is not ready (it inherits a class that was redefined with a superclass not defined yet) *)
+Definition hier_of (prec : list nat) : list nat := match prec with [] => [TT] | _ => prec end.
+Definition hier (c : cobj) : list nat := hier_of (co_prec c).
 Definition call_gf (w : world) (k i : nat) : world * option (list nat) :=
   match nth_error (insts w) i with
   | None => (w, None)
@@ -200,14 +226,14 @@ Definition call_gf (w : world) (k i : nat) : world * option (list nat) :=
       match get w (i_cid ins) with
       | None => (w, None)
       | Some c =>
-          match co_prec c with
+          match hier c with
           | [] => (w, None)
           | key :: _ =>
               let g := get_gf w k in
               match lookup (g_cache g) key with
               | Some l => (w, Some l)
               | None =>
-                  match applicable g (co_prec c) with
+                  match applicable g (hier c) with
                   | [] => (w, None)
                   | l => (with_gfs w (set_assoc (gfs w) k (mkGF (g_methods g) (set_assoc (g_cache g) key l))), Some l)
                   end
@@ -223,16 +249,29 @@ Definition init_own (sl : list slotdef) (vs : varmap) : varmap :=
   fold_left (fun vs sd => set_assoc vs (sd_name sd) (sd_initform sd)) sl vs.
 Definition init_inh (sl : list slotdef) (vs : varmap) : varmap :=
   fold_left (fun vs sd => match lookup vs (sd_name sd) with Some _ => vs | None => set_assoc vs (sd_name sd) (sd_initform sd) end) sl vs.
-(* shared-initialize, supplied initargs: unknown initarg -> error; a second initarg for a slot already
-   set by an initarg -> error ("Duplicate initarg"); setSlot writes obj.vars[slot] (adding it if absent) *)
+(* initArgs[k] (repo_fixes/C12-5): the slots that declare the initarg k anywhere along the inherit list, one
+   entry per slot name *)
+Definition initarg_slots (ia : list (nat * nat)) (k : nat) : list nat :=
+  dedup (map snd (filter (fun p => Nat.eqb (fst p) k) ia)).
+(* shared-initialize, supplied initargs: unknown initarg -> error; the initarg sets EVERY slot that declares it;
+   a slot already set by an initarg -> error ("Duplicate initarg"); setSlot writes obj.vars[slot] (adding it
+   if absent).  The slots of one initarg are distinct, so the order in which they are set does not matter. *)
+Fixpoint set_slots (ss : list nat) (v : Z) (seen : list nat) (vs : varmap) : option (list nat * varmap) :=
+  match ss with
+  | [] => Some (seen, vs)
+  | s :: r => if memb s seen then None else set_slots r v (s :: seen) (set_assoc vs s (Some v))
+  end.
 Fixpoint shared_args (ia : list (nat * nat)) (args : list (nat * Z)) (seen : list nat) (vs : varmap)
   : option (list nat * varmap) :=
   match args with
   | [] => Some (seen, vs)
   | (k, v) :: r =>
-      match lookup ia k with
-      | None => None
-      | Some s => if memb s seen then None else shared_args ia r (s :: seen) (set_assoc vs s (Some v))
+      match initarg_slots ia k with
+      | [] => None
+      | ss => match set_slots ss v seen vs with
+              | None => None
+              | Some (seen', vs') => shared_args ia r seen' vs'
+              end
       end
   end.
 (* shared-initialize, initforms: the initForms map has one entry per slot name (the most specific
@@ -305,9 +344,14 @@ Definition defclass_reg (w : world) (n : nat) (supers : list nat) (slots : list 
 (* ... makeClassesReady ... *)
 Definition defclass_pre (w : world) n supers slots (rorder : list nat) : world :=
   make_ready (defclass_reg w n supers slots) rorder.
-(* ... classChanged *)
-Definition defclass (w : world) n supers slots (rorder corder : list nat) : world :=
+(* ... classChanged, which ends (repo_fixes/C12-4) with generic.ClearCaches: the dispatch cache of every generic
+   function is dropped *)
+Definition clear_caches (w : world) : world :=
+  with_gfs w (map (fun kg => (fst kg, mkGF (g_methods (snd kg)) [])) (gfs w)).
+Definition defclass_merged (w : world) n supers slots (rorder corder : list nat) : world :=
   class_changed (defclass_pre w n supers slots rorder) n corder.
+Definition defclass (w : world) n supers slots (rorder corder : list nat) : world :=
+  clear_caches (defclass_merged w n supers slots rorder corder).
 
 Definition upd_inst (w : world) (i : nat) (vs : varmap) : world :=
   match nth_error (insts w) i with
@@ -377,7 +421,7 @@ Definition step (w : world) (o : op) (rorder corder : list nat) : world * obs :=
   | OTypep i n =>
       match nth_error (insts w) i with
       | None => (w, OErr)
-      | Some ins => match get w (i_cid ins) with None => (w, OErr) | Some c => (w, OB (memb n (co_prec c))) end
+      | Some ins => match get w (i_cid ins) with None => (w, OErr) | Some c => (w, OB (memb n (hier c))) end
       end
   | OClassOf i =>
       match nth_error (insts w) i with
